@@ -103,7 +103,7 @@ type procResult struct {
 	bad          int
 }
 
-func procOnce(bin, sig string, at time.Duration, rps, procs int, resKind string) procResult {
+func procOnce(bin, sig string, at time.Duration, rps, procs int, resKind string, flushMs int) procResult {
 	dir, err := os.MkdirTemp("/var/tmp", "c06-proc-")
 	if err != nil {
 		return procResult{inconclusive: "tmpdir"}
@@ -126,6 +126,17 @@ func procOnce(bin, sig string, at time.Duration, rps, procs int, resKind string)
 		if err := os.WriteFile(phout, bytes.Repeat([]byte(staleLine), 2000), 0o644); err != nil {
 			return procResult{inconclusive: "stale-file"}
 		}
+		if flushMs > 0 {
+			// (round 6) a long flush interval: nothing reaches the file before the aggregator's final flush
+			resultConf += fmt.Sprintf("\n      flush-interval: %dms", flushMs)
+		}
+	}
+	// (round 6) res=stdout: phout without a destination — the result stream is the process's standard output;
+	// res=stdout2: a second pool (half as long) reports to the standard output too: the pool that ends first must
+	// leave it open for the other one
+	toStdout := resKind == "stdout" || resKind == "stdout2"
+	if toStdout {
+		resultConf = "      type: phout"
 	}
 	duration := "60s"
 	if sig == "NONE" {
@@ -170,6 +181,26 @@ func procOnce(bin, sig string, at time.Duration, rps, procs int, resKind string)
       times: 1
 `, ln.Addr().String(), fifoPath, filepath.Join(dir, "phout-b.log"))
 	}
+	if resKind == "stdout2" {
+		secondPool = fmt.Sprintf(`  - id: c06b
+    gun:
+      type: http
+      target: %s
+    ammo:
+      type: uri
+      uris:
+        - /c06 tagC06
+    result:
+      type: phout
+    rps:
+      type: const
+      ops: %d
+      duration: %dms
+    startup:
+      type: once
+      times: 2
+`, ln.Addr().String(), rps, at/time.Millisecond/2)
+	}
 	cfg := fmt.Sprintf(`pools:
   - id: c06
     gun:
@@ -205,6 +236,14 @@ func procOnce(bin, sig string, at time.Duration, rps, procs int, resKind string)
 	}
 	cmd.Stdout = &stderr
 	cmd.Stderr = &stderr
+	if toStdout {
+		of, err := os.Create(phout)
+		if err != nil {
+			return procResult{inconclusive: "stdout-file"}
+		}
+		defer of.Close()
+		cmd.Stdout = of
+	}
 	if err := cmd.Start(); err != nil {
 		return procResult{inconclusive: "start"}
 	}
@@ -340,7 +379,7 @@ func runProc(kv map[string]string) string {
 	streak, failed := 0, 0
 	var r procResult
 	for attempt := 0; attempt < 6 && streak < 3; attempt++ {
-		r = procOnce(bin, kv["sig"], at, rps, atoi(kv["procs"]), kv["res"])
+		r = procOnce(bin, kv["sig"], at, rps, atoi(kv["procs"]), kv["res"], atoi(kv["fl"]))
 		if r.inconclusive != "" {
 			return "inconclusive=" + r.inconclusive
 		}
